@@ -560,12 +560,13 @@ func getAntiAffinityKeysValue(node *corev1.Node, daemonsetSpec *datadoghqv1alpha
 }
 
 func newReplicaSetFromInstance(daemonset *datadoghqv1alpha1.ExtendedDaemonSet) (*datadoghqv1alpha1.ExtendedDaemonSetReplicaSet, error) {
-	labels := map[string]string{
-		datadoghqv1alpha1.ExtendedDaemonSetNameLabelKey: daemonset.Name,
-	}
+	labels := map[string]string{}
 	for key, val := range daemonset.Labels {
 		labels[key] = val
 	}
+	// The name label identifies the owner: it is set last so that a label of the same key carried by the
+	// ExtendedDaemonSet itself (metadata copied from another object) cannot redirect the ReplicaSet to another owner.
+	labels[datadoghqv1alpha1.ExtendedDaemonSetNameLabelKey] = daemonset.Name
 	rs := &datadoghqv1alpha1.ExtendedDaemonSetReplicaSet{
 		ObjectMeta: metav1.ObjectMeta{
 			GenerateName: daemonset.Name + "-",
